@@ -134,7 +134,8 @@ def channelModulateOld (filt : List α → List α) (c : ModCfg) (x : List α) (
     (padEdge x (c.pad + c.rise)).map fun s => pySlice (filt s) (c.rise : Int) (-(c.rise : Int))
   else some (filt (padZero x c.pad))
 
-/-- `Waveform.modulated_samples`: `mod_samples[tr - start : len(mod_samples) - tr + end]`. -/
+/-- `Waveform.modulated_samples`: `mod_samples[tr - start : len(mod_samples) - tr + end]`, with `tr`
+and the buffers those of the EOM when `eom=True` (since /repo 7f048567; before, always the channel's). -/
 def trimModulated (mod : List α) (tr start stop : Nat) : List α :=
   pySlice mod ((tr : Int) - start) ((mod.length : Int) - tr + stop)
 
